@@ -285,7 +285,7 @@ META["C04"] = dict(
     gates={
         "mon.fold_comparisons": g(1500, 20000),
         "mon.fold_comparisons_repeated_parse": g(500, 6000),
-        "st.source.scalar_member_of_union_with_list.falsy": g(150, 1500),
+        "st.source.scalar_member_of_union_with_list.falsy": g(150, 1500), "mon.fold_comparisons_without_defaults": g(60, 600),
         "st.source.directory_matched_by_default_pattern": g(30, 300), "st.source.comment_only_default_file": g(80, 800),
         "st.source.default_file": g(400, 4000), "st.source.env_config": g(100, 1000), "st.source.env_var": g(150, 1500),
         "st.source.argv_plain": g(400, 4000), "st.source.argv_append": g(100, 1000), "st.source.argv_dictitem": g(100, 1000),
